@@ -123,6 +123,11 @@ HARNESS h_embed_label_invalid() {
 }
 
 // ---------------------------------------------------------------------------------------------------------------------
+#if KF_C03a
+#define DELTA_KF_WITNESS   /* region excluded from the main harnesses while the finding is open */
+#else
+#define DELTA_KF_WITNESS V_WITNESS_EMIT(8, "embed-delta-unrepresentable-reported");
+#endif
 // embed_label_delta(label, base, DS) -> [bind either] -> relocate_to_base: the field holds (section + label) - (section + base label).
 // mode 0: main harness (region of known finding C03a excluded while it is open); mode 1: confined to that region.
 // SA/SB: sections the labels are bound to before the reference (ignored for a label bound afterwards); concrete, because
@@ -153,6 +158,14 @@ static void embed_delta_flow_s(int mode) {
 
   Error err = a->BaseAssembler::embed_label_delta(Label(la), Label(lb), DS);
   verif_observe(uint64_t(err)); v_observe_bytes(sbuf[sid], 24);
+  if (kf) {
+    // both labels bound to one section and the difference fits the field neither as a signed nor as an unsigned value: it cannot
+    // be represented, so it must be reported (and nothing appended) - this is the assertion known finding C03a fails
+    V_ASSERT(err != Error::kOk && reports == 1 && size_t(a->_buffer_ptr - sbuf[sid]) == pos && sec(sid)->_buffer._size == pos && c->_relocations._size == 0,
+             "label difference emitted directly is not truncated");
+    V_WITNESS_MARK(8);
+    return;
+  }
   V_ASSERT(err == Error::kOk, "embed_label_delta of valid labels and size succeeds");
   V_ASSERT(size_t(a->_buffer_ptr - sbuf[sid]) == pos + size && sec(sid)->_buffer._size == pos + size, "embed_label_delta appends exactly data_size bytes");
   V_ASSERT(c->_relocations._size == (direct ? 0u : 1u), "a relocation is recorded unless both labels are bound to one section");
@@ -199,13 +212,13 @@ template<uint32_t DS> static void embed_delta_flow(int mode) {
     default: embed_delta_flow_s<DS, 1, true, true, 1, 0>(0); break;
   }
 }
-HARNESS h_embed_delta_0() { chenv::wit_mask = 0;  if (nondet_bool()) { arch_sel = 2; embed_delta_flow<0>(0); } else { arch_sel = 1; embed_delta_flow<0>(0); } V_WITNESS_EMIT(3, "embed-delta-direct"); V_WITNESS_EMIT(4, "embed-delta-relocated"); }
-HARNESS h_embed_delta_1() { chenv::wit_mask = 0;  arch_sel = 0; embed_delta_flow<1>(0); V_WITNESS_EMIT(3, "embed-delta-direct"); V_WITNESS_EMIT(4, "embed-delta-relocated"); V_WITNESS_EMIT(5, "embed-delta-refused"); }
-HARNESS h_embed_delta_2() { chenv::wit_mask = 0;  arch_sel = 0; embed_delta_flow<2>(0); V_WITNESS_EMIT(3, "embed-delta-direct"); V_WITNESS_EMIT(4, "embed-delta-relocated"); V_WITNESS_EMIT(5, "embed-delta-refused"); }
-HARNESS h_embed_delta_4() { chenv::wit_mask = 0;  arch_sel = 0; embed_delta_flow<4>(0); V_WITNESS_EMIT(3, "embed-delta-direct"); V_WITNESS_EMIT(4, "embed-delta-relocated"); V_WITNESS_EMIT(5, "embed-delta-refused"); }
+HARNESS h_embed_delta_0() { chenv::wit_mask = 0;  if (nondet_bool()) { arch_sel = 2; embed_delta_flow<0>(0); } else { arch_sel = 1; embed_delta_flow<0>(0); } V_WITNESS_EMIT(3, "embed-delta-direct"); V_WITNESS_EMIT(4, "embed-delta-relocated"); DELTA_KF_WITNESS }
+HARNESS h_embed_delta_1() { chenv::wit_mask = 0;  arch_sel = 0; embed_delta_flow<1>(0); V_WITNESS_EMIT(3, "embed-delta-direct"); V_WITNESS_EMIT(4, "embed-delta-relocated"); V_WITNESS_EMIT(5, "embed-delta-refused"); DELTA_KF_WITNESS }
+HARNESS h_embed_delta_2() { chenv::wit_mask = 0;  arch_sel = 0; embed_delta_flow<2>(0); V_WITNESS_EMIT(3, "embed-delta-direct"); V_WITNESS_EMIT(4, "embed-delta-relocated"); V_WITNESS_EMIT(5, "embed-delta-refused"); DELTA_KF_WITNESS }
+HARNESS h_embed_delta_4() { chenv::wit_mask = 0;  arch_sel = 0; embed_delta_flow<4>(0); V_WITNESS_EMIT(3, "embed-delta-direct"); V_WITNESS_EMIT(4, "embed-delta-relocated"); V_WITNESS_EMIT(5, "embed-delta-refused"); DELTA_KF_WITNESS }
 HARNESS h_embed_delta_8() { chenv::wit_mask = 0;  arch_sel = 0; embed_delta_flow<8>(0); V_WITNESS_EMIT(3, "embed-delta-direct"); V_WITNESS_EMIT(4, "embed-delta-relocated"); }
-HARNESS h_embed_delta_1_kf_C03a() { chenv::wit_mask = 0;  arch_sel = 0; embed_delta_flow<1>(1); V_WITNESS_EMIT(3, "embed-delta-direct"); }
-HARNESS h_embed_delta_4_kf_C03a() { chenv::wit_mask = 0;  arch_sel = 0; embed_delta_flow<4>(1); V_WITNESS_EMIT(3, "embed-delta-direct"); }
+HARNESS h_embed_delta_1_kf_C03a() { chenv::wit_mask = 0;  arch_sel = 0; embed_delta_flow<1>(1); V_WITNESS_EMIT(8, "embed-delta-unrepresentable-reported"); }
+HARNESS h_embed_delta_4_kf_C03a() { chenv::wit_mask = 0;  arch_sel = 0; embed_delta_flow<4>(1); V_WITNESS_EMIT(8, "embed-delta-unrepresentable-reported"); }
 // ---------------------------------------------------------------------------------------------------------------------
 // CodeHolder_evaluate_expression through an Expression relocation with an 8-byte field: every operator, operands constant /
 // label / nested expression (depth 2). The expression shape is fixed per instantiation (the evaluator is recursive).
